@@ -240,10 +240,11 @@ CounterKey == << Rel("p", "p", "=", KeyP, "part", TRUE), Rel("c", "c", "=", KeyC
 CondAlphabet == <<
     Rel("v", "vv", "=", IntV(61), "plain", TRUE),
     Rel("w__gt", "w", ">", IntV(62), "plain", FALSE),
-    Rel("t__ne", "t", "!=", TextV("no"), "plain", FALSE)
+    Rel("t__ne", "t", "!=", TextV("no"), "plain", FALSE),
+    Rel("z", "z", "=", IntV(63), "plain", TRUE)
 >>
 
-\* conditions / flags profiles: iff() with one or two conditions, if_exists(), ttl(), timestamp()
+\* conditions / flags profiles: iff() with one to three conditions, if_exists(), ttl(), timestamp()
 Prof(cq, ifx, ttl, ts) == [conds |-> [i \in 1..Len(cq) |-> CondAlphabet[cq[i]]], ifx |-> ifx, ttl |-> ttl, ts |-> ts]
 DmlProfiles == <<
     Prof(<<>>, FALSE, 0, FALSE),
@@ -255,7 +256,9 @@ DmlProfiles == <<
     Prof(<<>>, TRUE, 0, FALSE),
     Prof(<<>>, FALSE, 7, FALSE),
     Prof(<<>>, FALSE, 0, TRUE),
-    Prof(<<>>, TRUE, 9, TRUE)
+    Prof(<<>>, TRUE, 9, TRUE),
+    Prof(<<1, 3>>, FALSE, 0, FALSE),
+    Prof(<<4, 1, 3>>, FALSE, 0, FALSE)
 >>
 CondsOf(prof) == prof.conds
 
@@ -315,11 +318,15 @@ Together(i, j) ==
 
 AssignSets == {S \in Subsets(NA, 1, MaxAssign) : \A i \in S : \A j \in S : i # j => Together(i, j) /\ AssignAlphabet[i].kw # AssignAlphabet[j].kw}
 
-\* a condition on a column the same call also writes is left out here when the call needs a second (DELETE) statement:
-\* what happens to it is not stated anywhere
-ProfileFits(asgs, prof) ==
-    (\E i \in 1..Len(asgs) : asgs[i].null) =>
-        \A k \in 1..Len(prof.conds) : \A i \in 1..Len(asgs) : asgs[i].col # prof.conds[k].col
+\* A call that assigns some columns and sets others to None sends two statements, UPDATE then DELETE.  The UPDATE
+\* carries every condition; the follow-up DELETE carries the conditions except those on columns the UPDATE has just
+\* written (query.py 1328-1329 / 1458-1460: "remove conditions on fields that have been updated" - they would not
+\* hold any more).  Both statements are built from the SAME condition objects, so whatever numbers the conditions
+\* for the second statement must not disturb the first (cf. BatchQuery.execute, which renders them later).
+FollowUpConds(conds, written) ==
+    LET cols == {written[i].col : i \in 1..Len(written)}
+        Keeps(c) == c.col \notin cols
+    IN SelectSeq(conds, Keeps)
 
 QsUpdateCase(S, pi) ==
     [kind |-> "qsupdate", model |-> "S", assigns |-> [i \in 1..Cardinality(S) |-> AssignAlphabet[SeqOfSet(S)[i]]], prof |-> DmlProfiles[pi]]
@@ -332,7 +339,7 @@ QsUpdateReqs(c) ==
         nuls == Sel(c.assigns, IsNull)
         conds == CondsOf(c.prof) IN
     (IF Len(sets) > 0 THEN << Req("update", "st", FullKey, sets, <<>>, <<>>, conds, c.prof.ifx, FALSE) >> ELSE <<>>) \o
-    (IF Len(nuls) > 0 THEN << Req("delete", "st", FullKey, <<>>, nuls, <<>>, conds, c.prof.ifx, FALSE) >> ELSE <<>>)
+    (IF Len(nuls) > 0 THEN << Req("delete", "st", FullKey, <<>>, nuls, <<>>, FollowUpConds(conds, sets), c.prof.ifx, FALSE) >> ELSE <<>>)
 
 \* Queryset delete: of a row or of a partition
 QsDeleteCase(full, pi) == [kind |-> "qsdelete", model |-> "S", full |-> full, prof |-> DmlProfiles[pi]]
@@ -408,15 +415,12 @@ MutAlphabet == <<
 NM == Len(MutAlphabet)
 MutSets == {S \in Subsets(NM, 1, MaxMuts) : \A i \in S : \A j \in S : i # j => MutAlphabet[i].attr # MutAlphabet[j].attr}
 
-InstProfiles == << Prof(<<>>, FALSE, 0, FALSE), Prof(<<1>>, FALSE, 0, FALSE), Prof(<<>>, TRUE, 0, FALSE), Prof(<<>>, FALSE, 7, FALSE) >>
+InstProfiles == << Prof(<<>>, FALSE, 0, FALSE), Prof(<<1>>, FALSE, 0, FALSE), Prof(<<>>, TRUE, 0, FALSE), Prof(<<>>, FALSE, 7, FALSE),
+                   Prof(<<1, 3>>, FALSE, 0, FALSE), Prof(<<3, 1>>, FALSE, 0, FALSE), Prof(<<1, 3, 4>>, FALSE, 0, FALSE),
+                   Prof(<<4, 3, 1>>, FALSE, 0, FALSE), Prof(<<2, 1>>, FALSE, 0, FALSE) >>
 
 InstSaveCase(S, how, pi) ==
     [kind |-> "instsave", model |-> "S", how |-> how, muts |-> [i \in 1..Cardinality(S) |-> MutAlphabet[SeqOfSet(S)[i]]], prof |-> InstProfiles[pi]]
-
-\* same reservation as ProfileFits: a save that needs a DELETE statement is not combined with a condition on a written column
-MutProfileFits(ms, prof) ==
-    (\E i \in 1..Len(ms) : ms[i].null \/ Len(ms[i].delkeys) > 0) =>
-        \A k \in 1..Len(prof.conds) : \A i \in 1..Len(ms) : ms[i].col # prof.conds[k].col
 
 Writes(mu) == ~mu.null /\ (mu.shape # "puts" \/ Len(mu.pairs) > 0)
 Deletes(mu) == mu.null \/ Len(mu.delkeys) > 0
@@ -430,7 +434,7 @@ InstSaveReqs(c) ==
         ds == [i \in 1..Len(ds0) |-> DelClause(ds0[i])]
         conds == CondsOf(c.prof) IN
     (IF Len(ws) > 0 THEN << Req("update", "st", IF AllStatic(ws) THEN PartKey ELSE FullKey, ws, <<>>, <<>>, conds, c.prof.ifx, FALSE) >> ELSE <<>>) \o
-    (IF Len(ds) > 0 THEN << Req("delete", "st", IF AllStatic(ds) THEN PartKey ELSE FullKey, <<>>, ds, <<>>, conds, c.prof.ifx, FALSE) >> ELSE <<>>)
+    (IF Len(ds) > 0 THEN << Req("delete", "st", IF AllStatic(ds) THEN PartKey ELSE FullKey, <<>>, ds, <<>>, FollowUpConds(conds, ws), c.prof.ifx, FALSE) >> ELSE <<>>)
 
 InstDeleteCase(pi) == [kind |-> "instdelete", model |-> "S", prof |-> InstProfiles[pi]]
 InstDeleteReqs(c) == << Req("delete", "st", FullKey, <<>>, <<>>, <<>>, CondsOf(c.prof), c.prof.ifx, FALSE) >>
@@ -463,10 +467,14 @@ BatchMembers == <<
     QsDeleteCase(TRUE, 3),
     QsDeleteCase(FALSE, 1),
     InstSaveCase({7, 15}, "save", 1),
+    InstSaveCase({1, 2}, "update", 5),          \* v written, w set to None, iff(v, t): a condition on a written column first
+    QsUpdateCase({3, 4}, 11),                   \* the same through the query set
     InstSaveCase({2, 10}, "update", 2),
     InstDeleteCase(1),
     QsUpdateCase({11, 15}, 5),
-    InstSaveCase({3}, "save", 1)
+    InstSaveCase({3}, "save", 1),
+    InstSaveCase({1, 2}, "save", 7),            \* iff(v, t, z)
+    InstSaveCase({2, 18}, "update", 8)          \* t written, iff(z, t, v): the written column in the middle
 >>
 CounterMembers == << CounterCase("qs", 5), CounterCase("qs", -3), CounterCase("inst", 2) >>
 
@@ -492,7 +500,6 @@ Init ==
             case = SelectCase(fq, o) /\ out = Expect(case)
     \/ \E S \in AssignSets : \E pi \in 1..Len(DmlProfiles) :
             /\ case = QsUpdateCase(S, pi)
-            /\ ProfileFits(case.assigns, case.prof)
             /\ out = Expect(case)
     \/ \E full \in BOOLEAN : \E pi \in 1..Len(DmlProfiles) :
             case = QsDeleteCase(full, pi) /\ out = Expect(case)
@@ -500,7 +507,6 @@ Init ==
             case = CreateCase(S, pi) /\ out = Expect(case)
     \/ \E S \in MutSets : \E how \in {"save", "update"} : \E pi \in 1..Len(InstProfiles) :
             /\ case = InstSaveCase(S, how, pi)
-            /\ MutProfileFits(case.muts, case.prof)
             /\ out = Expect(case)
     \/ \E pi \in 1..Len(InstProfiles) :
             case = InstDeleteCase(pi) /\ out = Expect(case)
@@ -557,5 +563,12 @@ Witness_TwoIdClause == ~(case.kind = "instsave" /\ \E i \in 1..Len(case.muts) :
 Witness_TokenFilter == ~(case.kind = "select" /\ \E i \in 1..Len(case.filters) : case.filters[i].shape = "token")
 Witness_BatchOfThree == ~(case.kind = "batch" /\ Len(case.members) = 3 /\ Len(out.sent[1].stmts) >= 4)
 Witness_TwoStatements == ~(case.kind = "qsupdate" /\ Len(out.sent) = 2 /\ Len(case.prof.conds) > 0)
+\* the first member of a batch sends UPDATE + DELETE and a condition on a written column precedes one that the DELETE keeps
+Witness_SharedConditionsFirstInBatch ==
+    ~(case.kind = "batch" /\ Len(out.sent[1].stmts) >= 3 /\ case.members[1].kind \in {"instsave", "qsupdate"}
+      /\ out.sent[1].stmts[1].kind = "update" /\ out.sent[1].stmts[2].kind = "delete"
+      /\ Len(out.sent[1].stmts[1].iff) >= 2
+      /\ Len(out.sent[1].stmts[2].iff) >= 1 /\ Len(out.sent[1].stmts[2].iff) < Len(out.sent[1].stmts[1].iff)
+      /\ out.sent[1].stmts[1].iff[1][1] # out.sent[1].stmts[2].iff[1][1])
 Witness_MayRefuse == ~(case.kind = "select" /\ out.mayrefuse)
 =============================================================================
